@@ -49,6 +49,31 @@ def cases(tier):
             cs.append(F.join3(c1, c2, end=e3, order=("C", "B", "A")))
             cs.append(F.fan3(c1, c2, end=e3))
             cs.append(F.fan3(c1, c2, end=e3, order=("C", "B", "A")))
+    # steps off the hour lattice (halves, quarters) and incommensurable menus for producer and consumer
+    for ch in ([], [F.TOK["L"]], [F.TOK["F1"]], [["F", 0.75]], [F.TOK["A"]], [F.TOK["P1"]], [F.TOK["N"]], [["T", 0.25]]):
+        cs.append(F.pair(ch, menu=(0.5, 1.5), menu_b=(1, 1.25), end=4))
+        cs.append(F.pair(ch, menu=(0.75, 1), menu_b=(0.5, 2), end=4, order=("B", "A"), starts=(0, 0.25)))
+    # long runs with fixed irregular cyclic step lists (hundreds of updates; also steps of seconds and of days): anything that
+    # depends on counters, list growth or accumulated drift
+    import copy as _copy
+
+    def fixed(cfg, lists, end):
+        c = _copy.deepcopy(cfg)
+        for x, fx in zip([x for x in c["comps"] if x["kind"] == "T"], lists):
+            x["fixed"] = list(fx)
+        c["end"] = end
+        c["update_cap"] = 5000
+        return c
+
+    for ch in ([], [F.TOK["L"]], [F.TOK["A"]], [F.TOK["F1"]], [F.TOK["P1"]], [F.TOK["N"]], [["F", 0.5], ["F", 1.5]], [F.TOK["M"]]):
+        cs.append(fixed(F.pair(ch), ([1, 2.5, 0.75], [2, 1, 1, 3.5]), 300))
+        cs.append(fixed(F.pair(ch, order=("B", "A")), ([1 / 3600, 2 / 3600, 0.5], [1, 0.25]), 40))
+        cs.append(fixed(F.pair(ch), ([24, 31 * 24, 29 * 24], [7 * 24, 24]), 24 * 400))
+    for c1, c2 in (([], []), ([F.TOK["L"]], [F.TOK["F1"]]), ([F.TOK["A"]], [F.TOK["L"]])):
+        cs.append(fixed(F.line3(c1, c2), ([1, 2], [3, 1, 1], [2.5]), 200))
+        cs.append(fixed(F.join3(c1, c2), ([1], [0.5, 2], [3, 1]), 150))
+    cs.append(fixed(F.viaP([], []), ([1, 2], [3, 1, 1]), 200))
+    cs.append(fixed(F.viaPP([], [], []), ([0.75], [2, 1]), 150))
     # components that start at different times (three components)
     for starts in ((1, 0, 0), (0, 1, 0), (0, 0, 2), (2, 1, 0)):
         for c1, c2 in (([], []), ([F.TOK["L"]], [F.TOK["F1"]]), ([F.TOK["F1"]], [F.TOK["L"]]), ([F.TOK["A"]], [])):
